@@ -27,16 +27,16 @@ THOROUGH_UNITS = [k for k in sorted(_U) if k >= 100]   # units 100..: additional
 _units_spec = []
 for k in QUICK_UNITS:
     _units_spec.append({"name": "u%d" % k, "src": ["c09_main.cpp"], "variant": "asan", "defs": ["C09_UNIT=%d" % k],
-                        "configs": {n: {"quick": 1000, "thorough": 12000} for n in _U[k]}, "chunk": 125})
+                        "configs": {n: {"quick": 2000, "thorough": 20000} for n in _U[k]}, "chunk": 250})
 for k in THOROUGH_UNITS:
     _units_spec.append({"name": "t%d" % k, "src": ["c09_main.cpp"], "variant": "asan", "defs": ["C09_UNIT=%d" % k],
                         "tiers": ["thorough"],
-                        "configs": {n: {"thorough": 6000} for n in _U[k]}, "chunk": 400})
+                        "configs": {n: {"thorough": 20000} for n in _U[k]}, "chunk": 1250})
 # gcc ASan+UBSan build of two quick units (gcc's UBSan sees invalid-bool / enum loads clang's does not)
 for k in (0, 3):
     _units_spec.append({"name": "g%d" % k, "src": ["c09_main.cpp"], "variant": "gasan", "defs": ["C09_UNIT=%d" % k],
                         "tiers": ["thorough"],
-                        "configs": {n: {"thorough": 3000} for n in _U[k]}, "chunk": 400})
+                        "configs": {n: {"thorough": 5000} for n in _U[k]}, "chunk": 625})
 
 _CT = ["HEAP", "VECTOR", "LIST", "SET", "NAIVE_VECTOR", "SMALL_VECTOR", "UNORDERED_SET", "INTRUSIVE_LIST", "INTRUSIVE_SET"]
 
